@@ -499,7 +499,10 @@ where
     /// model creation, the function expects the layout of the parameter vector to be `$\vec{\alpha}=(\tau,\beta)^T$`.
     fn set_params(&mut self, params: &Vector<Model::ScalarType, Dyn, Self::ParameterStorage>) {
         if self.model.set_params(params.clone()).is_err() {
+            // the parameters were not applied: there is no valid state for them
+            // (in particular we must not cache values for the previous parameters)
             self.cached = None;
+            return;
         }
         // matrix of weighted model function values
         // a non-finite weighted function matrix is not a valid state: the SVD
@@ -644,7 +647,10 @@ where
     /// model creation, the function expects the layout of the parameter vector to be `$\vec{\alpha}=(\tau,\beta)^T$`.
     fn set_params(&mut self, params: &Vector<Model::ScalarType, Dyn, Self::ParameterStorage>) {
         if self.model.set_params(params.clone()).is_err() {
+            // the parameters were not applied: there is no valid state for them
+            // (in particular we must not cache values for the previous parameters)
             self.cached = None;
+            return;
         }
         // matrix of weighted model function values
         // a non-finite weighted function matrix is not a valid state: the SVD
